@@ -311,13 +311,22 @@ PROPS["C18"]["decides"] += "; every user-formatted label (FnFmt) is wrapped in E
 
 _sib = _cached("sibling", sibling.run)
 _diridx = _cached("diridx", sibling.diridx)
+_tedges = _cached("table.edges", table.edges_next)
+_tneigh = _cached("table.neighbors", table.neighbors_next)
+_fswap = _cached("fieldswap", sibling.fieldswap)
+_kcons = _cached("kcons", sibling.k_consistency)
 _gm_lock = _cached("guard.graphmap", guard.graphmap_lockstep)
 _mx_order = _cached("guard.matrix_order", guard.matrix_order)
 for _pid in ("C01", "C02"):
-    PROPS[_pid]["rules"] += [sub(_sib, lambda f, s: True, 6), sub(_diridx, lambda f, s: True, 6)]
+    PROPS[_pid]["rules"] += [sub(_sib, lambda f, s: True, 6), sub(_diridx, lambda f, s: True, 6), sub(_fswap, lambda f, s: True, 2),
+                             sub(_kcons, lambda f, s: True, 5),
+                             sub(_tedges, (lambda f, s: "stable_graph" not in f) if _pid == "C01" else (lambda f, s: "stable_graph" in f), 12),
+                             sub(_tneigh, (lambda f, s: "stable_graph" not in f) if _pid == "C01" else (lambda f, s: "stable_graph" in f), 3)]
     PROPS[_pid]["decides"] += "; Graph's and StableGraph's twin iterator implementations access next[i]/node[i] with the same constant indices " \
-                              "(sibling cross-check) and a list cursor next[i] is only advanced from a next[i] link with the same i"
-PROPS["C06"]["rules"].append(sub(_sib, lambda f, s: True, 6))
+                              "(sibling cross-check) and a list cursor next[i] is only advanced from a next[i] link with the same i; reverse() swaps every " \
+                              "[_; 2] field of Node and Edge; Edges::next / Neighbors::next decision tables (which list is walked, which endpoint is reported, when " \
+                              "endpoints are swapped, self-loop skip) match the documented table; the per-direction loops of remove_node/change_edge_links index every direction array by their own k"
+PROPS["C06"]["rules"] += [sub(_sib, lambda f, s: True, 6), sub(_tedges, lambda f, s: True, 20), sub(_tneigh, lambda f, s: True, 6)]
 PROPS["C06"]["decides"] += "; Graph/StableGraph neighbors_directed and iterator siblings agree on their direction-indexed accesses"
 PROPS["C03"]["rules"].append(sub(_gm_lock, lambda f, s: True, 7))
 PROPS["C03"]["decides"] += "; the edge map is never updated conditionally on an adjacency-list update; add_edge/remove_edge insert/remove the " \
